@@ -248,6 +248,29 @@ def gateway(rep, F, rule='GATEWAY'):
     return n
 
 
+def no_text_normalisation(rep, F, ents, rule='VERBATIM'):
+    """who-may-call: the text handed to the delegated integer parsers is a slice of the input as it is.  No parser entry
+    point calls a str method that removes or rewrites characters (trim*, strip_*, replace*, to_*case): trimming a set
+    of characters accepts any repetition of them (`1e++5`), which the grammar rejects."""
+    import re as _re
+    from facts import cres as _cres
+    from rules import table as _TB
+    n = 0
+    for fn_ in ents:
+        key = fn_.key + ':input-not-normalised'
+        bad = None
+        for b, t in fn_.calls():
+            c = _TB._plain(_cres(t) or '')
+            if _re.search(r'(^|::)str::(trim\w*|strip_\w+|replace\w*|to_(ascii_)?(lower|upper)case)$', c):
+                bad = (c.split('::')[-1], t['loc']['line'])
+        n += 1
+        if bad:
+            rep.violation(rule, key, 'the input text is passed through str::%s before it is parsed: characters are dropped or rewritten, so numerals outside the grammar are accepted' % bad[0], fn_.where(bad[1]))
+        else:
+            rep.ok(rule, key, 'no trimming / stripping / replacing str method is called on the input', fn_.where())
+    return n
+
+
 def run(ctx):
     rep = ctx.rep
     rep.explanation = ('Static MIR analysis. R-PANIC with entries Num::from_str_radix, FromStr::from_str, parse_bytes (debug-profile facts).  '
@@ -260,6 +283,8 @@ def run(ctx):
     rep.floor('parser entry points', len(ents), 3)
     names, n = panic_clause(ctx, F, ents, what='parsing an arbitrary string')
     rep.floor('may-panic sites enumerated', n, 8)
+    nvb = no_text_normalisation(rep, F, ents)
+    rep.floor('parser entry points checked for verbatim input', nvb, 3)
     Fr = ctx.facts('default', 'rel')
     n2 = radix_and_exponent(rep, Fr)
     rep.floor('radix/exponent clauses', n2, 2)
